@@ -1,8 +1,9 @@
 use crate::runner::Property;
+pub mod c03;
 pub mod c09;
 
 pub fn all() -> Vec<Property> {
-    vec![c09::property()]
+    vec![c03::property(), c09::property()]
 }
 pub fn get(id: &str) -> Option<Property> {
     all().into_iter().find(|p| p.id == id)
